@@ -381,7 +381,57 @@ impl Gen {
         self.ops.push(Op::Poll);
     }
 
+    /// `preciousblock`: the node moves to an equal-work sibling of its tip (empty, or re-confirming / conflicting with what
+    /// the old tip held); the tower polls (worse tip), is sometimes restarted while the fork is unresolved, and the fork is
+    /// then resolved on top of the sibling (or, rarely, left open).
+    fn op_precious(&mut self) {
+        let mut txs = vec![];
+        for d in 0..self.n_disputes {
+            match self.rng.below(6) {
+                0 => {
+                    txs.push(TxRef::Dispute(d));
+                    if self.rng.chance(1, 2) {
+                        txs.push(self.penalty_ref(d));
+                    }
+                }
+                1 => txs.push(TxRef::DisputeAlt(d)),
+                2 => txs.push(self.penalty_ref(d)),
+                _ => {}
+            }
+        }
+        let floor = self.cfg.start_height.saturating_sub(105).max(1);
+        if self.shadow.height() > floor + 1 {
+            let resolved: Vec<bitcoin::Transaction> = txs.iter().map(|t| self.tx(t)).collect();
+            self.shadow.precious_sibling(resolved);
+        }
+        self.ops.push(Op::Precious { txs });
+        self.ops.push(Op::Poll);
+        match self.rng.below(4) {
+            0 => self.ops.push(Op::Restart),
+            1 => {
+                self.ops.push(Op::Restart);
+                self.ops.push(Op::Poll);
+            }
+            _ => {}
+        }
+        if self.rng.chance(5, 6) {
+            let k = self.rng.range(1, 2);
+            for _ in 0..k {
+                let mut t = vec![];
+                if self.rng.chance(1, 3) {
+                    let d = self.rng.below(self.n_disputes as u64) as u32;
+                    t.push(self.penalty_ref(d));
+                }
+                self.push_mine(t);
+            }
+            self.ops.push(Op::Poll);
+        }
+    }
+
     fn op_misc(&mut self) {
+        if self.rng.chance(1, 6) {
+            return self.op_precious();
+        }
         match self.rng.below(8) {
             0 => {
                 let u = self.any_user();
